@@ -84,6 +84,26 @@ def clause1_value(ctx, P):
             return False
         ctx.ob("C14.1 R-GATE", g, "convert:type", Q.must_pass(P, g, c.block, isnum), "timeout converted without the number-type test")
         ctx.ob("C14.1 R-GATE", g, "convert:minimum", Q.must_pass(P, g, c.block, notsmall), "timeout converted without the minimum test")
+    # the minimum test separates exactly at one millisecond: it gives different answers for 0.001 (the double a JSON 0.001 / 1e-3
+    # parses to) and for the next double below it
+    import math
+    ONE_MS = 0.001
+    below = math.nextafter(ONE_MS, 0.0)
+    CMP = {"olt": lambda a, b: a < b, "ult": lambda a, b: a < b, "ole": lambda a, b: a <= b, "ule": lambda a, b: a <= b,
+           "ogt": lambda a, b: a > b, "ugt": lambda a, b: a > b, "oge": lambda a, b: a >= b, "uge": lambda a, b: a >= b}
+    seps = []
+    ks = []
+    for i in g.all_insts():
+        if i.op == "fcmp" and i.pred in CMP:
+            l, r = P.term(g, i.a[0]), P.term(g, i.a[1])
+            if r[0] == "fp" and r[1] < 1.0 and Q.is_field_load(l, "struct.cJSON", "valuedouble") is not None:
+                ks.append(r[1])
+                if CMP[i.pred](ONE_MS, r[1]) != CMP[i.pred](below, r[1]):
+                    seps.append(i)
+    ctx.ob("C14.1 R-BOUND", g, "minimum-is-exactly-one-millisecond", len(seps) >= 1,
+           "the minimum test of get_timeout_in_nsec compares with %s: it does not separate 0.001 s (legal, the documented minimum) from "
+           "the next smaller double - either exactly one millisecond is refused or shorter timeouts are accepted" %
+           (", ".join(repr(k) for k in ks) or "no constant"))
     views = Q.path_views(ctx, P, g)
     bad = None
     for v in views:
